@@ -102,7 +102,16 @@ Section Match.
     | [] => match got with [] => true | _ => false end
     | x :: r => match take_match x got with Some got' => same_multiset r got' | None => false end
     end.
+  (* after a cancellation: nothing twice, nothing that was not expected *)
+  Fixpoint sub_multiset (want got : list cevent) : bool :=
+    match want with
+    | [] => match got with [] => true | _ => false end
+    | x :: r => match take_match x got with Some got' => sub_multiset r got' | None => sub_multiset r got end
+    end.
 End Match.
+
+Definition cancelled (c : c19case) : bool :=
+  existsb (λ o, match o with OCancel => true | _ => false end) (k_trace c).
 
 Definition fields_ok (c : c19case) : bool :=
   match expected c with
@@ -110,8 +119,9 @@ Definition fields_ok (c : c19case) : bool :=
       match delivered_events ds with
       | Some want =>
           (length (k_recv c) =? k_nb c)%nat
-          && forallb (same_multiset (match k_mode c with MIngest => false | _ => true end)
-                                    (k_tlo c) (k_thi c) want) (k_recv c)
+          && forallb ((if cancelled c then sub_multiset else same_multiset)
+                        (match k_mode c with MIngest => false | _ => true end)
+                        (k_tlo c) (k_thi c) want) (k_recv c)
       | None => false
       end
   | None => false
